@@ -147,7 +147,7 @@ Fixpoint exec_list (e : env) (ss : list step) : list event * option result :=
       end
   end.
 
-Definition run (e : env) (ss : list step) : list event * result :=
+Definition target_run (e : env) (ss : list step) : list event * result :=
   let '(ev, o) := exec_list e ss in
   (ev, match o with Some r => r | None => FellOff end).
 
